@@ -22,7 +22,7 @@ def raising_test(inp, limit=0.0):
     return np.ma.ones(x.size, dtype="uint8")
 '''
 
-FAULTS = ["unknown_module", "unknown_test", "missing_param", "rejected_param", "input_not_supplied", "absent_stream",
+FAULTS = ["unknown_module", "unknown_module_dotted", "unknown_test", "missing_param", "rejected_param", "input_not_supplied", "absent_stream",
           "raises_on_data", "aggregate_entry"]
 POSITIONS = ["first", "last"]
 
@@ -76,6 +76,9 @@ class Faulty(StreamRun):
             if f == "unknown_module":
                 put(sid, "nosuchmodule", "gross_range_test", {"fail_span": [0, 1]})
                 dead.append((sid, "nosuchmodule", "gross_range_test"))
+            elif f == "unknown_module_dotted":
+                put(sid, "no.such.module", "gross_range_test", {"fail_span": [0, 1]})
+                dead.append((sid, "no.such.module", "gross_range_test"))
             elif f == "unknown_test":
                 put(sid, "qartod", "no_such_test", {"threshold": 1})
                 dead.append((sid, "qartod", "no_such_test"))
@@ -195,6 +198,108 @@ class Faulty(StreamRun):
         return obl
 
 
+NEEDS_Z_SRC = '''
+def needs_depth_test(inp, zinp, thr=0.0):
+    """verification probe: depth is a required input"""
+    x = np.ma.masked_invalid(np.ma.filled(np.ma.array(inp).astype(np.float64), np.nan))
+    flags = np.ma.ones(x.size, dtype="uint8")
+    flags[x > thr] = 3
+    flags[x.mask] = 9
+    return flags
+'''
+
+
+class XarrayMixedDims(Job):
+    """XarrayStream on a dataset whose variables live on different dimensions: v0(time) has time and depth axes, v1(obs) has none.
+    A test that needs depth cannot run on v1 and must drop out without disturbing the rest."""
+    prop = "C18"
+
+    def __init__(self, n, order):
+        self.n, self.order = n, order
+        self.name = f"fault[input_not_supplied: variable on another dimension] stream[xarray] n={n} order={order}"
+
+    def params(self):
+        return {"rows": self.n, "variables": {"v0": "time (with z)", "v1": "obs (no axes)"}, "order": self.order}
+
+    def declare(self, V):
+        S = Struct()
+        n = self.n
+        S.t = V.times_increasing("t", n, max_step=2 ** 20)
+        S.a = V.floats("a", n, nan=True)
+        S.b = V.floats("b", n + 1, nan=True)
+        S.z = V.floats("z", n, nan=True)
+        S.thr = V.float("thr", lo=-4, hi=4)
+        return S
+
+    def _cfg(self, S, with_fault):
+        t0 = {"needs_depth_test": {"thr": S.thr}, "spike_test": {"suspect_threshold": 1, "fail_threshold": 4}}
+        t1 = {"spike_test": {"suspect_threshold": 1, "fail_threshold": 4}}
+        if with_fault:
+            t1 = {"needs_depth_test": {"thr": S.thr}, **t1}
+        streams = {"v0": {"qartod": t0}, "v1": {"qartod": t1}}
+        if self.order == "v1_first":
+            streams = {"v1": streams["v1"], "v0": streams["v0"]}
+        return {"streams": streams}
+
+    def invoke(self, mods, S, K):
+        q = mods.qartod
+        exec(NEEDS_Z_SRC, q.__dict__)
+        try:
+            if K.sym:
+                from symex import symxr
+                ds = symxr.Dataset(data_vars={"v0": (("time",), K.farray(S.a)), "z": (("time",), K.farray(S.z)), "v1": (("obs",), K.farray(S.b))},
+                                   coords={"time": (("time",), K.tarray(S.t))})
+            else:
+                import xarray as xr
+                ds = xr.Dataset({"v0": (("time",), K.farray(S.a)), "z": (("time",), K.farray(S.z)), "v1": (("obs",), K.farray(S.b))},
+                                coords={"time": K.tarray(S.t)})
+            out = {}
+            for tag, wf in (("healthy", False), ("faulty", True)):
+                res = list(mods.streams.XarrayStream(ds).run(mods.config.Config(self._cfg(S, wf))))
+                out[tag] = mods.results.collect_results(res, how="dict")
+            return out
+        finally:
+            q.__dict__.pop("needs_depth_test", None)
+
+    def observe(self, out):
+        items = []
+        keys = {}
+        for tag in ("healthy", "faulty"):
+            ks = []
+            d = out[tag]
+            for sid in d:
+                for pkg in d[sid]:
+                    for t in d[sid][pkg]:
+                        ks.append((sid, pkg, t))
+                        for i, (m, nn, v) in enumerate(enc_array(d[sid][pkg][t])):
+                            items.append((f"{tag}:{sid}:{t}[{i}]", m, nn, v))
+            keys[tag] = ks
+        flags, mask = [], []
+        for (lab, m, nn, v) in items:
+            flags += [mk_if(m, rv(1), rv(0)), mk_if(mk_or(m, nn), rv(0), v)]
+            mask += [FALSE, FALSE]
+        return Outcome(flags=flags, mask=mask, shape=(len(flags),), extra={"items": items, "keys": keys})
+
+    def holds(self, S, out):
+        if out.raised:
+            return [(f"the run completes ({type(out.exc).__name__}: {str(out.exc)[:100]})", FALSE)]
+        items = {lab: (m, nn, v) for lab, m, nn, v in out.extra["items"]}
+        hk, fk = out.extra["keys"]["healthy"], out.extra["keys"]["faulty"]
+        obl = [("healthy configuration: v0 gets both tests, v1 its spike test",
+                TRUE if sorted(hk) == sorted([("v0", "qartod", "needs_depth_test"), ("v0", "qartod", "spike_test"), ("v1", "qartod", "spike_test")]) else FALSE),
+               ("the test that needs depth contributes no result for the variable without a depth axis",
+                TRUE if ("v1", "qartod", "needs_depth_test") not in fk else FALSE),
+               ("every healthy (stream, test) still has a result", TRUE if all(k in fk for k in hk) else FALSE)]
+        for (sid, pkg, t) in hk:
+            i = 0
+            while f"healthy:{sid}:{t}[{i}]" in items:
+                a, b = items[f"healthy:{sid}:{t}[{i}]"], items.get(f"faulty:{sid}:{t}[{i}]")
+                obl.append((f"{sid}:{t}[{i}] unchanged by the faulty entry",
+                            FALSE if b is None else mk_and(mk_eq(a[0], b[0]), mk_eq(a[2], b[2]))))
+                i += 1
+        return obl
+
+
 def jobs(tier):
     out = []
     fes = ["numpy", "pandas", "netcdf", "xarray", "qcconfig"] if tier == "quick" else ["numpy", "numpy_dict", "pandas", "pandas_idx", "netcdf", "xarray", "qcconfig"]
@@ -203,12 +308,14 @@ def jobs(tier):
             if fault == "absent_stream" and fe in ("numpy", "qcconfig"):
                 continue      # a single unnamed array has no stream ids
             for pos in POSITIONS:
-                if tier == "quick" and pos == "last" and fault in ("unknown_module", "missing_param", "aggregate_entry"):
+                if tier == "quick" and pos == "last" and fault in ("unknown_module", "unknown_module_dotted", "missing_param", "aggregate_entry"):
                     continue
                 out.append(Faulty(fe, fault, pos))
         if tier == "thorough":
             out.append(Faulty(fe, "raises_on_data", "first", n=3, contexts=2))
             out.append(Faulty(fe, "unknown_test", "last", n=3, contexts=2))
+    out.append(XarrayMixedDims(2, "v0_first"))
+    out.append(XarrayMixedDims(2, "v1_first"))
     out.append(Faulty("pandas", "raises_on_data", "first", canary="flip"))
     return out
 
